@@ -396,8 +396,37 @@ def oracle_alive(ctx, sc, prop, where):
     return True
 
 
+def encode_steps(steps):
+    """The real-code steps of a scenario in a JSON-able form (the `script` lines are their model-level rendering;
+    a select-loop round cannot be re-run from those)."""
+    def enc(x):
+        if isinstance(x, Io):
+            return {'io': x.text()}
+        if isinstance(x, (bytes, bytearray)):
+            return {'hex': hexb(bytes(x))}
+        if isinstance(x, (list, tuple)):
+            return [enc(y) for y in x]
+        return x
+    return [enc(list(st)) for st in steps]
+
+
+def decode_steps(enc):
+    from common import unhex
+
+    def dec(x):
+        if isinstance(x, dict) and 'io' in x:
+            w = x['io'].split()
+            return Io(w[0], w[1], w[2], w[3] == '1')
+        if isinstance(x, dict) and 'hex' in x:
+            return unhex(x['hex'])
+        if isinstance(x, list):
+            return [dec(y) for y in x]
+        return x
+    return [tuple(dec(st)) for st in enc]
+
+
 def report(ctx, sc, key, flow, where, expected, observed):
-    ctx.violation(key, case=dict(cfg=sc.s.cfg, script=list(sc.s.ins), flow=flow, where=where,
+    ctx.violation(key, case=dict(cfg=sc.s.cfg, script=list(sc.s.ins), steps=encode_steps(sc.s.steps), flow=flow, where=where,
                                  refused=sorted(list(x) for x in getattr(sc, 'refused', set()))),
                   expected=expected, observed=observed, kind='ops')
 
@@ -597,18 +626,59 @@ def failure_tears_down(ctx, rng, prop, which, fault):
             f = t.flows[0]
             c_listed, s_listed = f.cproxy in t.chandlers, f.sproxy in t.shandlers
             c_reg, s_reg = bool(t.cmux.channels.get(f.chan)), bool(t.smux.channels.get(f.chan))
-            # (a fully shut handler may stay listed until the next tunnel traffic gives it a callback: pre_select
-            # registers nothing for it; that is how the loop works and is not judged)
-            if c_reg or s_reg or not f.app.saw_shut or not f.dst.saw_shut:
+            if c_reg or s_reg or not f.app.saw_shut or not f.dst.saw_shut or c_listed or s_listed:
                 report(ctx, sc, '%s:teardown:failed-flow-not-torn-down' % prop, 0,
                        '%s endpoint %s error, the other endpoint idle' % (which, fault),
-                       'both sockets shut and the id free on both ends',
+                       'both sockets shut, both handlers dropped and the id free on both ends',
                        dict(client_handler=c_listed, server_handler=s_listed, client_id_held=c_reg, server_id_held=s_reg,
                             app_shut=f.app.saw_shut, dst_shut=f.dst.saw_shut))
             else:
                 oracle_quiet(ctx, sc, prop)
         elif not sc.stop:
             report(ctx, sc, '%s:liveness:no-quiescence-within-bound' % prop, 0, 'drain', 'quiescent', 'still changing')
+        oracle_alive(ctx, sc, prop, 'run')
+        return sc.s.ins, sc.s.outs
+    finally:
+        sc.close()
+
+
+def stop_after_eof(ctx, rng, prop, which):
+    """One endpoint closes its sending side first (its end-of-stream crosses the tunnel) and later refuses the other
+    endpoint's data (EPIPE): the STOP_SENDING that follows reaches a handler whose other direction is already
+    finished.  Real select-loop passes only, and the tunnel is idle afterwards: the handler must be dropped by the
+    pass that finishes the flow, not by some later unrelated wake-up.  `which` = the endpoint that closes and refuses."""
+    o = Opts(nflows=1, steps=0)
+    sc = Scenario(rng, o)
+    try:
+        t = sc.t
+        full = Io('ok', 'd65536', 's65536', False)
+        refuse = Io('ok', 'd65536', 'p', False)
+        near, far = ('s', 'c') if which == 'dst' else ('c', 's')
+        other = 'app' if which == 'dst' else 'dst'
+        sc.do(('accept',))
+        sc.drain()
+        if sc.stop or not t.flows:
+            return sc.s.ins, sc.s.outs
+        sc.do(('de', 0) if which == 'dst' else ('ae', 0))
+        sc.drain()
+        sc.refused.add((0, which))
+        sc.env_write(0, other, payload(rng, 100, 7))
+        farq = t.cmux if far == 'c' else t.smux
+        nearq = t.cmux if near == 'c' else t.smux
+        sc.do(('round', far, len(nearq.outbuf), 'auto', full))       # the far end reads the data and frames it
+        sc.do(('round', near, len(farq.outbuf), 'auto', refuse))     # the near end's write gets EPIPE: STOP_SENDING
+        sc.do(('round', far, len(nearq.outbuf), 'auto', full))       # the far end handles it: the flow is finished
+        sc.do(('round', near, len(farq.outbuf), 'auto', refuse))
+        q = sc.drain()
+        sc.do(('ae', 0) if which == 'dst' else ('de', 0))            # the other endpoint goes away at last
+        q = sc.drain()
+        if not sc.stop:
+            oracle_eof_order(ctx, sc, prop, 'end')
+            if q:
+                oracle_teardown(ctx, sc, prop)
+                oracle_quiet(ctx, sc, prop)
+            else:
+                report(ctx, sc, '%s:liveness:no-quiescence-within-bound' % prop, 0, 'drain', 'quiescent', 'still changing')
         oracle_alive(ctx, sc, prop, 'run')
         return sc.s.ins, sc.s.outs
     finally:
@@ -655,13 +725,29 @@ def closed_app_streaming_dst(ctx, rng, prop):
         sc.close()
 
 
-def replay_script(lines):
-    """Re-run recorded driver input lines on the real code; returns the Scenario-like object."""
+def replay_script(lines, steps=None):
+    """Re-run a recorded scenario on the real code; returns the Scenario-like object.  With `steps` (the recorded
+    real-code steps) the run is exact, select-loop rounds included; `lines` alone (older replay files) re-runs the
+    model-level rendering, which has no rounds."""
+    if isinstance(lines, dict):
+        steps = lines.get('steps')
+        lines = lines['script']
     cfg = lines[0].split()
     maxchan, bufsize, chani = int(cfg[1]), int(cfg[2]), int(cfg[3])
     occ = [int(x) for x in cfg[4:]]
     s = ts.Script(maxchan, bufsize, chani, occ)
     wrote = {}
+    if steps:
+        for st in decode_steps(steps):
+            if st[0] in ('aw', 'dw'):
+                i, side = st[1], ('app' if st[0] == 'aw' else 'dst')
+                if i < len(s.t.flows):
+                    env = s.t.flows[i].app if side == 'app' else s.t.flows[i].dst
+                    if not env.eof_in:
+                        wrote[(i, side)] = wrote.get((i, side), b'') + st[2]
+            if not s.do(st):
+                break
+        return s, wrote
     for line in lines[1:]:
         w = line.split()
         if w[0] == 'q' or (w[0] == 'pre' and w[2] == '99999'):
